@@ -126,24 +126,81 @@ def directed_shared_lambda(ctx):
         def jets(self) -> Iterable[JetA]: ...
 
     class EvB:
-        def jets(self) -> Iterable[JetB]: ...
+        def jets(self, cone: float = 0.4) -> Iterable[JetB]: ...
 
     class DS(EventDataset):
         async def execute_result_async(self, a, title=None):
             return a
 
-    lam = astx.parse_expr("lambda e: e.jets().Select(lambda j: j.pt() + 1)")
-    s1 = DS(EvA).Select(lam)
-    before = astx.dump_fields(s1.query_ast)
-    s2 = DS(EvB).Select(lam)
-    ctx.case("directed-shared-lambda-object", True)
-    ctx.count("directed:shared-lambda-object")
-    if astx.dump_fields(s1.query_ast) != before:
-        ctx.violation(
-            "shared-user-lambda-object-edited-in-place",
-            f"one ast.Lambda object supplied to two typed streams: deriving the second changed the first: {astx.unparse(s1.query_ast)}",
-            {"directed": "shared-lambda"},
-        )
+    import ast as _ast
+
+    text = "lambda e: e.jets().Select(lambda j: j.pt() + 1)"
+    # the caller's object: a bare ast.Lambda, or what ast.parse made of the text (a Module holding it)
+    for form, lam in (("ast.Lambda", astx.parse_expr(text)), ("ast.Module", _ast.parse(text)), ("ast.Module, top-level call", _ast.parse("lambda e: e.jets().Count()"))):
+        s1 = DS(EvA).Select(lam)
+        before = astx.dump_fields(s1.query_ast)
+        kept = _ast.dump(lam)
+        s2 = DS(EvB).Select(lam)
+        ctx.case("directed-shared-lambda-object:" + form, True)
+        ctx.count("directed:shared-lambda-object")
+        if astx.dump_fields(s1.query_ast) != before:
+            ctx.violation(
+                "shared-user-lambda-object-edited-in-place",
+                f"one {form} object supplied to two typed streams: deriving the second changed the first: {astx.unparse(s1.query_ast)}",
+                {"directed": "shared-lambda"},
+            )
+        elif _ast.dump(lam) != kept:
+            ctx.violation("shared-user-lambda-object-edited-in-place", f"the caller's own {form} object was edited: {_ast.unparse(lam)}", {"directed": "shared-lambda"})
+
+
+def flat_snapshot(a):
+    """what a tree is, read without recursion (ast.walk is iterative): for chains too deep for any recursive reader"""
+    import ast as _ast
+
+    out = []
+    for n in _ast.walk(a):
+        out.append((type(n).__name__, tuple((f, v if isinstance(v, (str, int, float, bool, bytes, type(None))) else (len(v) if isinstance(v, list) else None)) for f, v in _ast.iter_fields(n))))
+    return out
+
+
+def directed_deep_chain(ctx):
+    """scale boundary: a derivation chain deeper than recursive readers of the tree can follow (200-400 stages), executed on a back end
+    that edits the AST it is handed in place. Whether value() succeeds or gives up with RecursionError, no stream changes"""
+    from func_adl import EventDataset
+
+    from ..history import vandalise
+
+    class DS(EventDataset):
+        async def execute_result_async(self, a, title=None):
+            import ast as _ast
+
+            for n in _ast.walk(a):  # (a back end that edits in place, written without recursion)
+                if isinstance(n, _ast.Call) and isinstance(n.func, _ast.Name) and n.func.id == "EventDataset":
+                    n.args.append(_ast.Constant(value="root://site//file.root"))
+                elif isinstance(n, _ast.Attribute):
+                    n.attr = n.attr + "_b"
+            return 1
+
+    for depth in (120, 250, 300, 420):
+        root = DS()
+        s = root
+        mid = None
+        for i in range(depth):
+            s = s.Select("lambda e: e.x") if i % 3 else s.Where("lambda e: e.y > 1")
+            if i == depth // 2:
+                mid = s
+        snaps = [(x, flat_snapshot(x.query_ast)) for x in (root, mid, s)]
+        ctx.case(f"directed-deep-chain:{depth}", True)
+        ctx.count("directed:deep-chain-executions")
+        try:
+            s.value()
+            ctx.count("directed:deep-chain-executed")
+        except RecursionError:
+            ctx.count("directed:deep-chain-gave-up-with-RecursionError (not judged)")
+        for x, snap in snaps:
+            if flat_snapshot(x.query_ast) != snap:
+                ctx.violation("stream-changed:deep-chain-executed-on-an-editing-back-end", f"a chain of {depth} stages executed on a back end that edits its AST in place: a stream's query changed (root now {type(root.query_ast).__name__} with {len(getattr(root.query_ast, 'args', []))} arguments)", {"directed": "deep-chain"})
+                return
 
 
 def directed_shared_toplevel(ctx):
@@ -188,6 +245,7 @@ def shard_main(ctx):
         directed(ctx)
         directed_shared_lambda(ctx)
         directed_shared_toplevel(ctx)
+        directed_deep_chain(ctx)
     for i in range(N_CASES[ctx.tier]):
         if ctx.out_of_time():
             ctx.count("stopped-by-time-budget")
@@ -202,7 +260,9 @@ def shard_main(ctx):
 
 
 def replay(ctx, witness):
-    if witness.get("directed") == "shared-toplevel":
+    if witness.get("directed") == "deep-chain":
+        directed_deep_chain(ctx)
+    elif witness.get("directed") == "shared-toplevel":
         directed_shared_toplevel(ctx)
     elif witness.get("directed") == "shared-lambda":
         directed_shared_lambda(ctx)
